@@ -181,7 +181,7 @@ theorem matchSub_clean (kp : Nat → Bool) (gd : Gdef) (pre : List TG) (cur : TG
     | gsub81 _ _ _ _ => simp [pointwise] at hpw
     | gpos11 _ _ => simp [pointwise] at hpw
     | gpos12 _ _ => simp [pointwise] at hpw
-    | gpos41 _ _ _ _ => simp [pointwise] at hpw
+    | gpos41 _ _ _ _ _ => simp [pointwise] at hpw
     | gpos61 _ _ _ _ => simp [pointwise] at hpw
     | ctx1 _ _ =>
       simp only [Spec.Shape.matchSub, Spec.Shape.need, Spec.Shape.undef, bind, Except.bind, pure, Except.pure,
